@@ -105,7 +105,7 @@ WitK(T, env, C, fuel, K) ==
     [] T.t = "ref"   -> IF fuel = 0 THEN {} ELSE WitK(Lookup(env, T.n), env, C, fuel - 1, K)
     [] OTHER -> {}
 
-WitFuel == 3
+WitFuel == 5
 \* w: witnesses per position, keys: undeclared keys tried together under an index signature, xw: witnesses per such key
 \* (the product over the undeclared keys is what grows; WitComplete checks that the larger caps give the same answers)
 K0 == [w |-> 5, keys |-> 5, xw |-> 3]
